@@ -67,3 +67,10 @@ chk("C08", "exploration",
     "The evidence counts byte compares with outcome 'different' per site; a site with zero is reported as inconclusive.",
     "Collisions are forced by weakening the checksum, not found for the real 32-bit function; trusted: vp/sqfsimg.py.",
     "differential content + hook-log invariant under forced checksum collisions", "3/C08")
+chk("C17", "exploration",
+    "Each generated tree is packed by the ASan gensquashfs without and with a generated sort file (negative/tied/large priorities, exact and quoted names with escapes, glob and glob_no_path patterns, "
+    "overlapping lines, flag subsets) under -T/-e/-b/-B. The independent parser's layout must follow an executable statement of the man page: first matching line wins, stable ascending priority order of data "
+    "blocks and of tails relative to the default order, dont_compress/dont_fragment/nosparse/dont_deduplicate storage effects, -T only for files larger than one block, export table present and correct, "
+    "and the tree and contents unchanged.",
+    "The default order is read from the image packed without a sort file; only glob patterns with unambiguous meaning are generated; the interaction of dont_compress with a deduplicated tail is not judged.",
+    "decoded-layout check against executable documentation semantics", "3/C17")
